@@ -1883,6 +1883,10 @@ func (s *ImmuStore) performPrecommit(tx *Tx, entries []*EntrySpec, ts int64, blT
 
 	tx.header.BlTxID = blTxID
 
+	// the tx holder comes from a pool: without this reset a transaction with
+	// blTxID == 0 would be written with the BlRoot of the holder's previous use
+	tx.header.BlRoot = [sha256.Size]byte{}
+
 	if blTxID > 0 {
 		blRoot, err := s.aht.RootAt(blTxID)
 		if err != nil && !errors.Is(err, ahtree.ErrEmptyTree) {
